@@ -68,6 +68,48 @@ CHECKS = {
         note="Trusted: CPython; programs on which it raises are outside the fragment. quick runs 2 of 8 option combinations for the two big products, thorough all 8.",
         ref="DESIGN.md 3 C13",
     ),
+    "C02": dict(
+        category="exploration",
+        technique="bounded-exhaustive enumeration of syntactically valid modules (statement-host x hazard-expression product, target/import shape products, the program spaces of the other checks, the stdlib corpus with unsupported statements stripped) x 8 option combinations; every returned text compiled in eval mode and compared with the emitted tree",
+        text="Every (statement host, hazard expression) pair (45 hosts x 60 shapes; thorough: plus 17 nesting wrappers), every target and import shape, every program of the C01/C06/C08/C13/C14 spaces and the stripped standard-library modules are converted under all option combinations; whenever conversion returns, the text must have no line break, compile as one expression and (oneliner unparser) parse back to the tree convert() emitted.",
+        note="Trusted: compile(..., 'eval') of CPython; rejection (any exception) is allowed by the property and only counted.",
+        ref="DESIGN.md 3 C02",
+    ),
+    "C08": dict(
+        category="exploration",
+        technique="bounded-exhaustive enumeration of (host position x unsupported construct) injections and illegal placements, each converted under 8 option combinations; accepted = violation; control hosts must convert",
+        text="20 statement hosts x 43 statement constructs, 40 expression hosts x 12 expression constructs and 39 illegal placements (break/continue outside loops, return outside functions, double starred targets - including in dead code): whenever ast.parse accepts the text, conversion must raise under every option combination; the same hosts with a harmless filler must convert.",
+        note="Trusted: ast.parse decides what is a case; any exception counts as rejection.",
+        ref="DESIGN.md 3 C08",
+    ),
+    "C09": dict(
+        category="model_checking",
+        technique="exhaustive identifier x role x feature matrix executed differentially against CPython, plus stateless schedule exploration of the random source (every draw answered 'fresh' or 'equal to an earlier value', deviation-bounded) with the output compared up to renaming and executed",
+        text="Every cell of (28 risky identifiers incl. every builtin the generated code calls, read from generated ASTs) x (12 binding roles) x (21 helper-introducing features + 10 scope-local features) under 8 option combinations must behave like the same program under CPython; and for 12 programs with several temporaries every schedule of RNG answers with up to 2 (quick) / 4 (thorough, short programs) forced equalities must give output identical up to renaming that behaves like the source.",
+        note="Trusted: CPython; random.choices is the only randomness and is owned by the harness.",
+        ref="DESIGN.md 3 C09, 5b E2",
+    ),
+    "C11": dict(
+        category="model_checking",
+        technique="exhaustive enumeration of all 756 parameter lists x 4 variants x 3 placements, each with its complete call battery (environment answers) executed on the reference and on every conversion",
+        text="All 756 parameter lists (<= 2 per kind, every legal default pattern) as def / annotated def / lambda / def whose parameters are captured by inner scopes, defined at module, function and class level, under 8 option combinations: definition-time log of default and decorator probes, inspect.signature (modulo annotations) and the result of every call shape in the battery (0..n+1 positionals x keyword subsets incl. unknown and duplicate names; return taken or not) must match CPython.",
+        note="Trusted: CPython's argument binding; only the TypeError type is compared.",
+        ref="DESIGN.md 3 C11",
+    ),
+    "C12": dict(
+        category="exploration",
+        technique="bounded-exhaustive enumeration of the class skeleton product (bases x metaclass x keywords x decorators x member kinds x placements) x 8 option combinations, observed by an injected observer and compared with CPython",
+        text="Every skeleton of {4 base shapes} x {metaclass} x {class keyword} x {0..2 decorators} x {21 member kinds; thorough: all pairs} x {5 placements incl. header helpers local to a function / members of an enclosing class}: filtered vars(cls), MRO, metaclass, results of calling every member on instances and subclasses, property behaviour and name binding must equal CPython's.",
+        note="Trusted: CPython; namespace-observing creation hooks (__set_name__, __slots__, metaclass reading members) are outside the fragment and not generated.",
+        ref="DESIGN.md 3 C12",
+    ),
+    "C14": dict(
+        category="model_checking",
+        technique="exhaustive enumeration of import-statement histories (<= 2/3 statements over 20 forms) x placement x caller identity against a vendored logging package tree, sys.modules purged per run; import log, sys.modules delta and bound objects compared with CPython",
+        text="Every sequence of up to 2 (quick) / 3 (thorough) import statements over 20 forms (plain, dotted, aliased, multi-name, from-import of attributes and unimported submodules, relative level 1 and 2) at module, function and class level, as a top-level script and as a module inside the package, under all option combinations: which modules are executed, in which order, what ends up in sys.modules and what every bound name refers to must equal CPython's.",
+        note="Trusted: CPython import system; the vendored package tree is the whole import universe explored.",
+        ref="DESIGN.md 3 C14",
+    ),
 }
 
 def main():
